@@ -37,6 +37,7 @@ type Opts struct {
 	// operand can be empty (excludes the known finding Union2D:pruned-value-overestimates by construction)
 	SolidUnion2 bool
 	solid       bool
+	inUnion2    bool // generating an operand of a 2D union (incl. Multi2D/LineOf2D): no blends below it
 }
 
 type gen struct {
@@ -270,14 +271,17 @@ func (x *gen) rigid2(k *Node) *Node {
 }
 
 func (x *gen) blendMin() (string, []float64) {
-	if !x.o.NoBlend && x.intr("blend", 0, 3) == 0 {
+	// A blended shape has material (its fillet) outside its own bounding box (known finding
+	// C01:blend-fillet-outside-box); as an operand of the box-pruned 2D union that material is dropped.
+	// Operands of 2D unions are therefore generated without blends: the class is excluded by construction.
+	if !x.o.NoBlend && !x.o.inUnion2 && x.intr("blend", 0, 3) == 0 {
 		return "PolyMin", []float64{g.LogUniform(x.t, x.lbl("k"), 1e-3*x.o.S, x.o.S)}
 	}
 	return "", nil
 }
 
 func (x *gen) blendMax() (string, []float64) {
-	if !x.o.NoBlend && x.intr("blend", 0, 3) == 0 {
+	if !x.o.NoBlend && !x.o.inUnion2 && x.intr("blend", 0, 3) == 0 {
 		return "PolyMax", []float64{g.LogUniform(x.t, x.lbl("k"), 1e-3*x.o.S, x.o.S)}
 	}
 	return "", nil
@@ -506,14 +510,15 @@ func (x *gen) node2(depth int) *Node {
 	case "union2":
 		n := x.intr("n", 2, 4)
 		ks := make([]*Node, n)
-		was := x.o.solid
+		was, wasIn := x.o.solid, x.o.inUnion2
 		if x.o.SolidUnion2 {
 			x.o.solid = true
 		}
+		x.o.inUnion2 = true
 		for i := range ks {
 			ks[i] = x.node2(depth - 1)
 		}
-		x.o.solid = was
+		x.o.solid, x.o.inUnion2 = was, wasIn
 		s, p := x.blendMin()
 		return &Node{Op: "union2", K: ks, S: s, P: p}
 	case "diff2", "isect2":
@@ -556,7 +561,10 @@ func (x *gen) node2(depth int) *Node {
 		return &Node{Op: "array2", K: []*Node{x.node2(depth - 1)}, I: []int{x.intr("nx", 1, 4), x.intr("ny", 1, 3)}, P: []float64{step(), step()}}
 	case "rotcopy2":
 		n := x.intr("n", 1, 12)
+		wasIn := x.o.inUnion2
+		x.o.inUnion2 = true // the operand is wrapped in a 2D union with its mirror image below
 		k := x.node2(depth - 1)
+		x.o.inUnion2 = wasIn
 		k = &Node{Op: "xform2", K: []*Node{k}, I: []int{0}, P: []float64{0, x.length("ring", 0.1, 2), 0}}
 		if x.o.Grammar == Lipschitz || x.intr("sym", 0, 1) == 1 {
 			m := &Node{Op: "xform2", K: []*Node{k}, I: []int{1}, P: []float64{0, 0, 0}}
@@ -579,10 +587,18 @@ func (x *gen) node2(depth int) *Node {
 		for i := 0; i < np; i++ {
 			ps = append(ps, x.coord("mx", 2), x.coord("my", 2))
 		}
-		return &Node{Op: "multi2", K: []*Node{x.node2(depth - 1)}, P: ps}
+		wasIn := x.o.inUnion2
+		x.o.inUnion2 = true
+		k := x.node2(depth - 1)
+		x.o.inUnion2 = wasIn
+		return &Node{Op: "multi2", K: []*Node{k}, P: ps}
 	case "lineof2":
 		pat := rapid.StringMatching("[x.]{0,3}x[x.]{0,3}").Draw(x.t, x.lbl("pattern"))
-		return &Node{Op: "lineof2", K: []*Node{x.node2(depth - 1)}, S: pat, P: []float64{x.coord("p0x", 2), x.coord("p0y", 2), x.coord("p1x", 2), x.coord("p1y", 2)}}
+		wasIn := x.o.inUnion2
+		x.o.inUnion2 = true
+		k := x.node2(depth - 1)
+		x.o.inUnion2 = wasIn
+		return &Node{Op: "lineof2", K: []*Node{k}, S: pat, P: []float64{x.coord("p0x", 2), x.coord("p0y", 2), x.coord("p1x", 2), x.coord("p1y", 2)}}
 	case "cache2":
 		return &Node{Op: "cache2", K: []*Node{x.node2(depth - 1)}}
 	case "center2":
